@@ -468,7 +468,7 @@ Proof.
     apply pres_bind; [apply p_in_child; auto; apply flag_lift|]. intros _.
     apply pres_bind; [apply p_cb_at; auto|]. intros _. apply p_in_child; auto. apply flag_lift.
   - destruct (s_kind (get_state mc s)); try (apply p_cb; auto).
-    apply pres_bind; [apply p_cb; auto | intros _; destruct (Nat.leb EV_FIRST_USER (e_ty ev)); [apply pres_push_up | apply pres_ret]].
+    apply pres_bind; [apply p_cb; auto | intros _; destruct (negb (Nat.eqb (e_ty ev) EV_NONE)); [apply pres_push_up | apply pres_ret]].
 Qed.
 
 (* the kids of this level *)
@@ -500,7 +500,7 @@ Proof.
       intros rn g r rn' g' Hk Em. inversion Em; subst. cbn. apply idle_unfold. split; [destruct rn; reflexivity | apply kids_idle_set_processing; auto].
   - pose proof kids_idle_stable as HS.
     destruct (s_kind (get_state mc s)); try (apply p_cb; auto).
-    apply pres_bind; [apply p_cb; auto | intros _; destruct (Nat.leb EV_FIRST_USER (e_ty ev)); [apply pres_push_up | apply pres_ret]].
+    apply pres_bind; [apply p_cb; auto | intros _; destruct (negb (Nat.eqb (e_ty ev) EV_NONE)); [apply pres_push_up | apply pres_ret]].
 Qed.
 
 Let Kpei : forall s co fuel ev src, child children s = Some co -> pres kids_idle (lift_child s 0 (co_pei co fuel ev src)).
